@@ -3,12 +3,15 @@
    the translator's subset reaches; the others are listed in c19_body_untranslated), as a program of
    model/HeapProg.v.  Checked by computation on the table, for every entry:
      - the body passes the ownership analysis from its initial flags (write flags / keep flags);
-     - object registers are never copied (one register per may-alias class);
+     - no object register is copied into another register that is used as an object (obj_wf; the may-alias
+       classes themselves - which variables share a register - are computed by the translator, outside Coq);
+     - every call record names an entry of the table, and flags are set on parameter registers only;
      - CALL SITES: every call record SCall c args eff meets the contract of entry c of this same table:
        each caller register handed to a parameter that c may write through is written through in eff,
-       each one handed to a parameter that c may keep escapes in eff - so the inter-procedural half is an
-       obligation over the table, not trust in the translator's summaries (what a RESULT may alias is
-       still the translator's);
+       each one handed to a parameter that c may keep escapes in eff (a SYNTACTIC check of the recorded effect:
+       the instruction must occur on a path not cut off by a return or jump; there is no induction over the call
+       graph in Coq).  This replaces trust in the translator's write/keep summaries by an obligation over the
+       table; what a RESULT may alias, and which argument a callee stores into which, is still the translator's;
      - an API function (exported, non-internal package) that is not in the exception list starts
        with NO writable and NO keepable parameter;
      - WHITELIST: no entry may write through a parameter whose type is in c19_immutable_types;
@@ -29,8 +32,10 @@ Definition contract_of (c : nat) : list bool * list bool :=
 Definition body_ok (e : fn_body) : bool :=
   Nat.eqb (List.length (fb_wflags e)) (fb_nregs e) && Nat.eqb (List.length (fb_kflags e)) (fb_nregs e) &&
   Nat.leb (fb_np e) (fb_nregs e) &&
+  forallb negb (skipn (fb_np e) (fb_wflags e)) && forallb negb (skipn (fb_np e) (fb_kflags e)) &&
   body_disciplined (fb_wflags e) (fb_kflags e) (fb_prog e) &&
   obj_wf (fb_objs e) (fb_prog e) &&
+  calls_lt (List.length c19_bodies) (fb_prog e) &&
   calls_ok contract_of (fb_prog e).
 
 Theorem every_body_ok : forallb body_ok c19_bodies = true.
@@ -71,14 +76,21 @@ Theorem body_table_not_trivial :
   Nat.ltb (4 * List.length c19_body_untranslated) c19_bodies_considered = true.
 Proof. vm_compute. auto. Qed.
 
-(* THE TIE, body level.  For EVERY translated function body of the table, every caller heap, every
-   choice of the argument slices (and of the garbage in the other registers), every execution - all
-   branches, any number of loop iterations, any indices and bytes, also executions that stop early -
+(* THE TIE, body level.  For EVERY translated function body of the table that is not in the exception list,
+   every caller heap, every choice of the argument slices (and of the garbage in the other registers), every
+   execution - all branches, any number of loop iterations, any indices and bytes, also executions that stop early -
    (1) no array of the caller changes except those of the parameters with a write flag, and
-   (2) every slice that escapes (is returned by an API function, stored in a shared object, kept by a
-       callee) lives in an array allocated during the call or in one of the parameters with a keep flag. *)
+   (2) every slice that ESCAPES lives in an array allocated during the call or in one of the parameters with a
+       keep flag.  What counts as an escape: a value returned by an API function; a value stored into an object
+       that is not private to the function (the analysis demands a keepable value for such a store; the
+       conclusion below speaks of the escape log, into which only SEscape writes - a store itself changes neither
+       heap nor log in this semantics); a value handed to a callee whose contract says it keeps it.  A value
+       RETURNED BY AN INTERNAL HELPER is not an escape: the callers account for it through the translator's
+       result-alias summary.  Entries of the exception list may, in addition, return a view (see the list).
+   SCOPE: only byte memory ([]byte, [N]byte and what reaches them) is modelled; *big.Int, interface values
+   without a register, function values and channels are invisible. *)
 Theorem every_body_frames_the_caller :
-  forall e, In e c19_bodies ->
+  forall e, In e c19_bodies -> excepted e = false ->
   forall h0 regs o h' regs' lg', List.length regs = fb_nregs e ->
     exec (h0, regs, []) (fb_prog e) o (h', regs', lg') ->
     (forall s, wf_slice h0 s -> ~ In (arr s) (writable regs (fb_wflags e)) ->
@@ -87,7 +99,7 @@ Theorem every_body_frames_the_caller :
        (List.length h0 <= arr r /\ forall s, wf_slice h0 s -> arr s <> arr r) \/
        In (arr r) (writable regs (fb_kflags e))).
 Proof.
-  intros e Hin h0 regs o h' regs' lg' Hlen X.
+  intros e Hin _ h0 regs o h' regs' lg' Hlen X.
   pose proof every_body_ok as All. rewrite forallb_forall in All. specialize (All _ Hin).
   unfold body_ok in All. repeat (apply andb_prop in All; destruct All as [All ?]).
   apply Nat.eqb_eq in All. match goal with H : Nat.eqb _ _ = true |- _ => apply Nat.eqb_eq in H end.
@@ -95,9 +107,10 @@ Proof.
 Qed.
 
 (* ... and for every API function outside the exception list there is no flagged parameter: the
-   caller's whole memory is unchanged and every byte slice, and every object the analysis follows (objects
-   built in the function, objects it was handed whose type is not whitelisted), that the function returns or
-   stores is fresh *)
+   caller's whole memory is unchanged and every byte slice that ESCAPES (in the sense above: returned, or
+   required keepable by a store into a non-private object / by a keeping callee) - directly or through an
+   object the analysis follows (objects built in the function, objects it was handed whose type is not
+   whitelisted) - is fresh *)
 Theorem every_api_body_frames_the_caller :
   forall e, In e c19_bodies -> fb_api e = true -> excepted e = false ->
   forall h0 regs o h' regs' lg', List.length regs = fb_nregs e ->
